@@ -77,7 +77,20 @@ static void build_dirty(Src& s, N& dst, const MV& m, A& a) {
       dst.SetObject();
       for (auto& kv : m.o) { N c; build_dirty(s, c, kv.second, a); dst.AddMember(StringView(kv.first.data(), kv.first.size()), std::move(c), a, true); }
       break;
-    default: build(dst, m, a, true);
+    default:
+      if (m.k == MV::Null && s.coin(1, 2)) {
+        // a null that came about by moving the node's previous value away (the node keeps whatever payload bytes it had)
+        switch (s.index(3)) {
+          case 0: dst.SetString("a value that is moved away, long enough to be owned", 51, a); break;
+          case 1: dst.SetInt64(-77); break;
+          default: dst.SetDouble(3.25); break;
+        }
+        N gone(std::move(dst));
+        (void)gone;
+        if (!dst.IsNull()) dst.SetNull();
+        break;
+      }
+      build(dst, m, a, true);
   }
 }
 // strings present in the static pool are set as constant (borrowed) strings
